@@ -115,9 +115,17 @@ def check_send(total_len, mtu, obs, xfer_skip=0, polls_ms=()):
             with node.sim.as_node('U'):
                 for when in polls_ms:
                     GLib.timeout_add(when, node.agent._poll, item, False)
-        res = node.sim.run(400000)
+        # bounded progress in virtual time: the paced sender moves about 10 octets per (virtual) second in this world; it is given
+        # twice the time that takes plus ten minutes.  A sender that is still waiting then will wait for ever.
+        t_start = node.sim.world.now_ns
+        allowance_ns = (total_len // 5 + 600) * 10 ** 9
+        res = node.sim.run(400000, until=lambda: node.sim.world.now_ns - t_start > allowance_ns)
         obs['sends'] += 1
         dgrams = node.sent_datagrams()
+        if res == 'until':
+            fins = node.sim.hist.signals('send_bundle_finished')
+            return ['after %d s of virtual time the transfer of %d octets is not finished: %d datagram(s) sent, %d finished signal(s); the sender '
+                    'keeps waiting' % (allowance_ns // 10 ** 9, total_len, len(dgrams), len(fins))], dgrams, bundle
         if polls_ms:
             polls = [dg for dg in dgrams if dg[:1] == b'\xa2' and dg != bundle]
             obs['poll_datagrams_during_transfer'] = obs.get('poll_datagrams_during_transfer', 0) + len(polls)
@@ -280,7 +288,7 @@ def check_receive(arrivals, originals, obs, compose=None):
 def cases(tier, seed):
     out = []
     thorough = tier == 'thorough'
-    lens = [40, 41, 63, 64, 100, 255, 256, 257, 300, 1000] + ([65500, 65535, 65536, 65600, 70000] if thorough else [65536])
+    lens = [40, 41, 63, 64, 100, 255, 256, 257, 300, 1000, 1400, 1401, 3000] + ([65500, 65535, 65536, 65600, 70000] if thorough else [65536])
     idx = 0
     for total in lens:
         out.append(dict(id='send-%d' % total, kind='send', total=total, dense=thorough))
@@ -292,6 +300,9 @@ def cases(tier, seed):
         out.append(dict(id='multi-%d' % rep, kind='multi', seed=seed * 571 + rep))
     for rep in range(20 if thorough else 4):
         out.append(dict(id='loop-%d' % rep, kind='loop', seed=seed * 419 + rep))
+    # bundle lengths that are exact multiples of the room a segment has, for three and more segments (where an even split is exact)
+    for mtu in ((200, 257, 576, 1400) if thorough else (257, 576, 1400)):
+        out.append(dict(id='multiples-%d' % mtu, kind='multiples', mtu=mtu))
     out.append(dict(id='ranges', kind='ranges', seed=seed))
     return out
 
@@ -338,6 +349,13 @@ def run_case(case):
                 polls = (0, 1, 3, 10, 40, 200, 1000, 5000)
                 problems, dgrams, _bundle = check_send(total, mtu, obs, polls_ms=polls)
                 note(problems, 'send+polls', dict(total=total, mtu=mtu, datagrams=len(dgrams)), 'sendpoll|%d|%s' % (total, mtu), nontrivial=len(dgrams) > 1)
+    elif kind == 'multiples':
+        mtu = case['mtu']
+        for room in range(mtu - 22, mtu - 5):
+            for count in (3, 4):
+                problems, dgrams, _bundle = check_send(count * room, mtu, obs)
+                note(problems, 'send-multiple', dict(total=count * room, mtu=mtu, datagrams=len(dgrams)), 'sendmult|%d|%d' % (count * room, mtu),
+                     nontrivial=len(dgrams) > 1)
     elif kind == 'perm':
         bundle = make_bundle(rng.choice([60, 90, 200]), seq=1)
         while True:
